@@ -383,6 +383,66 @@ def runtime(ck, tier, deep):
     ck.sample(dict(suite="S.runtime", callables=[e[0] for e in E][:12], total=len(E)))
 
 
+def mutated_containers(ck, tier):
+    """an option passed as a mutable container (list, dict, array) belongs to the caller, who may change it between calls: the
+    second call must follow the new content — the library must not have kept the caller's object as part of a cache key
+    (repair F62: rbasex compared the caller's list with itself and reused the matrices of the old strength)"""
+    import abel
+    from abel import daun, linbasex, rbasex
+    rng = np.random.default_rng(seed() + 1862)
+    full = rng.random((21, 21))
+    half = rng.random((4, 15))
+
+    def clean():
+        for mod in ("basex", "daun", "dasch", "linbasex", "rbasex"):
+            getattr(abel, mod).cache_cleanup()
+
+    def rb(reg):
+        return rbasex.rbasex_transform(full, reg=reg)[0]
+
+    def dn(reg):
+        return daun.daun_transform(half, reg=reg, verbose=False)
+
+    def lb(pa, lo):
+        return linbasex.linbasex_transform_full(full, proj_angles=pa, legendre_orders=lo, basis_dir=None)[1]
+
+    def tr(opts):
+        return abel.Transform(full, method="daun", transform_options=opts).transform
+
+    cases = [
+        ("rbasex reg list, strength", lambda c: rb(c), ["L2", 1.0], lambda c: c.__setitem__(1, 1000.0)),
+        ("rbasex reg list, type", lambda c: rb(c), ["L2", 5.0], lambda c: c.__setitem__(0, "diff")),
+        ("rbasex reg list, SVD strength", lambda c: rb(c), ["SVD", 0.1], lambda c: c.__setitem__(1, 0.5)),
+        ("daun reg list, strength", lambda c: dn(c), ["L2", 1.0], lambda c: c.__setitem__(1, 100.0)),
+        ("daun reg list, type", lambda c: dn(c), ["diff", 3.0], lambda c: c.__setitem__(0, "L2c")),
+        ("linbasex proj_angles list", lambda c: lb(c, [0, 2]), [0, np.pi / 2], lambda c: c.__setitem__(1, np.pi / 3)),
+        ("linbasex legendre_orders list", lambda c: lb([0, np.pi / 2], c), [0, 2], lambda c: c.__setitem__(1, 4)),
+        ("Transform transform_options dict", lambda c: tr(c), dict(reg=("L2", 1.0), verbose=False), lambda c: c.__setitem__("reg", ("L2", 50.0))),
+        ("rbasex weights array", lambda c: rbasex.rbasex_transform(full, weights=c)[0], np.ones_like(full),
+         lambda c: c.__setitem__((slice(None), slice(0, 5)), 0.0)),
+    ]
+    for label, f, container, change in cases:
+        ck.count(("S.mutated-container", label), suite="S.runtime")
+        try:
+            clean()
+            c = copy.deepcopy(container)
+            first = np.array(quiet(f, c), float)
+            change(c)
+            second = np.array(quiet(f, c), float)
+            clean()
+            want = np.array(quiet(f, copy.deepcopy(c)), float)
+        except Exception as e:
+            ck.violation(dict(site=label, clause="mutated-container-exception"), dict(case=label), f"{type(e).__name__}: {e}")
+            continue
+        if second.shape != want.shape or not np.allclose(second, want, rtol=0, atol=1e-9 * max(1.0, float(np.nanmax(np.abs(want)))), equal_nan=True):
+            stale = second.shape == first.shape and np.array_equal(second, first, equal_nan=True)
+            ck.violation(dict(site=label, clause="mutated-container"), dict(case=label, after=repr(c)[:200]),
+                         f"{label}: after the caller changed the container to {repr(c)[:80]}, the call returns "
+                         f"{'the result of the old content' if stale else 'something else'} (differs from a clean-cache call by "
+                         f"{np.nanmax(np.abs(second - want)) if second.shape == want.shape else 'shape'})")
+    clean()
+
+
 def disk_sessions(ck, tier):
     """calling again with the same arguments returns the same bits — also when other methods' calls come in between and the basis
     directory on disk is in use: each call of an interleaved session is compared with its first occurrence"""
@@ -460,6 +520,7 @@ def run(tier):
     ck.proofs("PyAbel.Props.C18")
     runtime(ck, tier, deep or bool(ck.broken))
     disk_sessions(ck, tier)
+    mutated_containers(ck, tier)
     return ck.finish()
 
 
